@@ -43,9 +43,12 @@ func c09Contexts(role string, neighbour string) []c09Ctx {
 		{"allowed entry with WITH", "\x02 WITH Bison-exception-2.2", []string{"Zlib", hole + " WITH Bison-exception-2.2"}},
 		{"allowed entry vs Zlib", "Zlib", []string{hole}},
 	}
-	if neighbour != "" {
-		l = append(l, c09Ctx{"allowed entry vs family neighbour+", neighbour + "+", []string{hole}},
-			c09Ctx{"term vs family neighbour+", hole, []string{neighbour + "+"}})
+	for _, nb := range strings.Fields(neighbour) {
+		l = append(l, c09Ctx{"allowed entry vs family member " + nb + "+", nb + "+", []string{hole}},
+			c09Ctx{"term vs family member " + nb + "+", hole, []string{nb + "+"}},
+			c09Ctx{"allowed entry vs family member " + nb, nb, []string{hole}},
+			c09Ctx{"term vs family member " + nb, hole, []string{nb}},
+			c09Ctx{"allowed entry+ vs family member " + nb, nb, []string{hole + "+"}})
 	}
 	return l
 }
@@ -127,13 +130,18 @@ func c09Neighbour(id string) string {
 	n := NormTerm(id)
 	res := ""
 	if p, ok := pos[n.ID]; ok && p.Count == 1 {
+		// one member of every other version step of the family (space separated)
 		fam := T().Ranges[p.Fam]
+		var all []string
 		for j, st := range fam {
 			if j != p.Ver && len(st) > 0 && !strings.HasSuffix(st[0], "-or-later") {
-				res = st[0]
-				break
+				all = append(all, st[0])
 			}
 		}
+		if len(all) > 4 {
+			all = append(all[:2], all[len(all)-2:]...)
+		}
+		res = strings.Join(all, " ")
 	}
 	neighbourCache[id] = res
 	return res
